@@ -139,6 +139,24 @@ CLAIMS = {
               "reported. Oracle: impulse at a random frame through all seven real types, energy centroid vs n*ratio + output_delay()."),
         note=NOTE + "That zero-padded FFT multiplication is linear convolution is assumed about realfft (measured by the oracle).",
         ref="3.14"),
+
+    "C01": dict(
+        technique="Lean 4 proof of the filter structure (polyphase map, linear phase, gain, blend) on definitions regenerated from the source; magnitudes measured by a tone-fit oracle",
+        text=("Partial by design: the dB/percent figures are numerical facts about window functions and are MEASURED every run (unit sine below the passband edge "
+              "through the real sinc and FFT resamplers, least-squares amplitude and residual against the thresholds of the statement). Proved: make_sincs entry [s][p] "
+              "is prototype tap f*p+f-1-s over the normalising sum for every arithmetic instance; branch s is centred (s+1)/f later; the prototype is even about its "
+              "centre for all six windows (linear phase, over R); taps sum to f (DC gain 1); the generated blends reproduce cubics/quadratics/lines on their nodes, the "
+              "nodes are the instants (floor(t f)+j)/f and the fraction is t f - floor(t f); the table read out of the crate equals the model's table (C15 tie)."),
+        note=NOTE + "Not proved: the numerical magnitudes (passband ripple, leakage), f32 precision; libm sin/cos and realfft are outside the model.",
+        ref="3.1"),
+    "C02": dict(
+        technique="Lean 4 proof of cutoff/window facts on constants regenerated from the source; attenuation measured by a tone oracle",
+        text=("Partial by design (as C01): attenuation figures are measured every run (unit sine above the stopband edge through the real down-sampling resamplers; "
+              "image residual when up-sampling; FFT > 100 dB). Proved: the table is built with f_cutoff*min(1,ratio); calculate_cutoff is in (0,1) and strictly increasing "
+              "in the length for all six windows, so the stopband edge is well defined and above f_cutoff; the generated window constants are the textbook "
+              "Hann/Blackman/Blackman-Harris ones; the squared variants square exactly the named base window (law-free); windows are non-negative and 1 at the centre."),
+        note=NOTE + "Not proved: the stopband rejection magnitudes; FFT bin truncation is inside realfft-dependent code (not modelled).",
+        ref="3.2"),
 }
 
 UNDER_CONSTRUCTION = "check under construction in this session (framework being built; see DESIGN.md section 3)"
